@@ -127,15 +127,32 @@ def run(ctx, rep):
                                "the inverse transform is no longer reachable when the option is off"))
     # readers of the key
     readers = set()
+    reader_fns = {}
     for fn in F.fns.values():
         if fn.name.startswith("verif_control::"):
             continue
         for b, kind, tree, e in fn.roots():
             if tree is not None and has_lit(tree, key):
                 readers.add(fn.base)
+                reader_fns.setdefault(fn.base, []).append(fn)
     allowed = {f.base for f in real} | set(tab["option_writers"])
-    extra = sorted(r for r in readers - allowed
-                   if not any(r.startswith(a + "(") or r.startswith(a + "::") for a in allowed))
+
+    def is_allowed(base):
+        return base in allowed or any(base.startswith(a + "(") or base.startswith(a + "::") for a in allowed)
+    rev = {}
+    for k, outs in F.callgraph().items():
+        for o in outs:
+            rev.setdefault(o, set()).add(k)
+
+    def only_serves_allowed(fn, depth=0, seen=None):
+        """a helper (query function, lambda) whose every caller is an allowed user reads the key for them"""
+        seen = seen or set()
+        cs = [F.fns[c] for c in rev.get(fn.key, ()) if c in F.fns and c not in seen]
+        if not cs or depth > 2:
+            return False
+        return all(is_allowed(c.base) or only_serves_allowed(c, depth + 1, seen | {fn.key}) for c in cs)
+    extra = sorted(r for r in readers if not is_allowed(r) and
+                   not all(only_serves_allowed(f) for f in reader_fns[r]))
     rep.add(Obligation("SIBLING-SKIP", "option key", "'%s' users" % key, "-",
                        VIOLATION if extra else DISCHARGED,
                        detail="only the transform-stage implementations and %s mention the key" % tab["option_writers"]
